@@ -74,7 +74,8 @@ CHECKS = {
         text="Decides that the writer is defined and code-preserving on everything the reader can produce: RCODE/OPCODE written "
              "back from every parsed value re-parse to the same value (16 nibbles, 4096 extended codes), the TYPE written for "
              "whatever the parse dispatch builds is the parsed TYPE for all 65536 codes, and no writer - nor any crate function reached from one - constructs an error "
-             "of its own (LOC's version check mirrors the parser's). One genuine defect is recorded as a known finding "
+             "of its own (LOC's version check mirrors the parser's). The parser lifts the OPT record from the end of the additional "
+             "section at which both writers emit it (first <-> before the additional records). One genuine defect is recorded as a known finding "
              "(RCODE::Reserved).",
         note="Trusted: as C18. Does not decide field-value equality of parse(write(parse(x))) (value-level); length consistency "
              "(len() vs write_to) is checked under C04-R1.",
@@ -170,13 +171,15 @@ CHECKS = {
              "functions themselves are C18-R4. Trusted: rustc MIR, radix_trie's prefix semantics.",
         ref="DESIGN.md section 4 C13"),
     "C15": dict(
-        technique="variant-set agreement between sibling functions + decision-table evaluation of the ingest filter closures",
+        technique="variant-set agreement between sibling functions + decision-table evaluation of the ingest filter closures + must-pass-through on the attribute writer / reader",
         text="PARTIAL. The RData variants InstanceInformation::into_records (and the conversion helpers it calls) builds are exactly "
              "those from_records consumes, each arm storing into the matching collection; in both back-ends the ingest filter "
              "evaluates to name != own instance AND name.is_subdomain_of(service) for all four outcome combinations, and every "
              "record stored or reported flows (through the iterator pipeline, coroutine-saved slots included) out of that filter, "
-             "with no chain / merge met before it.",
-        note="Does not decide set / attribute equality across the wire, which labels form the instance name, nor the escape / "
+             "with no chain / merge met before it. The attribute writer (TXT from a map) writes a `=` on every path of a present "
+             "value and on no path of an absent one, and the reader (TXT::attributes) splits once at the first `=` and stores a "
+             "present value exactly on the paths where a second piece exists.",
+        note="Does not decide set / attribute value equality across the wire, which labels form the instance name, nor the escape / "
              "unescape inverse (value-level; two seeded changes of that kind are documented as not detected).",
         ref="DESIGN.md section 4 C15"),
     "C19": dict(
@@ -253,7 +256,7 @@ def main():
         "not_applicable": na,
         "notes": "All checks are static: /repo is type-checked by the driver, never executed. Exit 2 = infrastructure error "
                  "(tree does not compile / driver missing). Functions that are not in tables/functions.tsv (helpers extracted by a "
-                 "later refactoring) are inlined into their callers before analysis. Tested both ways: seeded/ (109 property-breaking "
+                 "later refactoring) are inlined into their callers before analysis. Tested both ways: seeded/ (124 property-breaking "
                  "changes, RESULTS.json) and neutral/ (behaviour-preserving refactorings that must stay silent).",
     }
     json.dump(m, open(os.path.join(VERIF, "MANIFEST.json"), "w"), indent=1)
